@@ -1,5 +1,6 @@
 import H2V.Lemmas.ConnDrainPTurn
 import H2V.Lemmas.ConnRecvPReach
+import H2V.Lemmas.ConnDrainPCapE
 /-
   ConnDrainP, part 11 — `SReach`: stream-layer states that the reachability notions of ConnFlowP, ConnCountsP and
   ConnRecvP all accept (closed under every call the connection task makes, with the decoder's bounds on
@@ -57,11 +58,14 @@ theorem pollNext_frameOk (n : Nat) : ∀ (c c' : Codec) (tag : String) (f : Fram
 -- ===================================================================== stream-layer states every family accepts
 
 /-- a stream-layer state reachable in the sense of all three lemma families whose invariants are used here:
-    ConnFlowP (send-flow safety), ConnCountsP (queue ↔ flag consistency), ConnRecvP (receive windows) -/
+    ConnFlowP (send-flow safety), ConnCountsP (queue ↔ flag consistency), ConnRecvP (receive windows); plus `KInv`
+    (ConnDrainPCapA…E: nobody waits in `pending_capacity` while the connection has capacity to give), which
+    ConnFlowP's `Reach` does not give because its initial states leave `pending_capacity` unconstrained -/
 structure SReach (s : Streams) : Prop where
   flow : ConnFlowP.Reach s
   cnt : ConnCountsP.Reach s
   rv : ∃ g, ConnRecvP.Reach g s
+  k : KInv s
 
 theorem SReach.pinv {s : Streams} (h : SReach s) (hp : s.panicked = none) : PInv s ∧ RangeOK s := by
   refine ⟨⟨h.flow.safe, h.flow.reqOk, h.cnt.qok hp _ (by decide), h.cnt.qok hp _ (by decide)⟩, ?_⟩
@@ -72,53 +76,53 @@ theorem SReach.pinv {s : Streams} (h : SReach s) (hp : s.panicked = none) : PInv
   exact ⟨h1.2, h2.1⟩
 
 /-- one call with `True` validity in ConnRecvP -/
-theorem SReach.step {s s' : Streams} (h : SReach s) (h1 : ConnFlowP.Reach s') (h2 : ConnCountsP.ApiStep s s')
-    (op : ConnRecvP.Op) (hv : op.valid s) (he : op.apply s = s') : SReach s' := by
+theorem SReach.step {s s' : Streams} (h : SReach s) (h1 : ConnFlowP.Reach s') (hk : KInv s')
+    (h2 : ConnCountsP.ApiStep s s') (op : ConnRecvP.Op) (hv : op.valid s) (he : op.apply s = s') : SReach s' := by
   obtain ⟨g, hr⟩ := h.rv
-  exact ⟨h1, .step h.cnt h2, ⟨_, he ▸ ConnRecvP.Reach.step op hr hv⟩⟩
+  exact ⟨h1, .step h.cnt h2, ⟨_, he ▸ ConnRecvP.Reach.step op hr hv⟩, hk⟩
 
 section
 variable {s : Streams} (h : SReach s)
 include h
 
 theorem SReach.recvHeaders (hd : HeadersIn) : SReach (s.recvHeaders hd).1 :=
-  h.step (.recvHeaders hd h.flow) (.recvHeaders s hd) (.recvHeaders hd) trivial rfl
+  h.step (.recvHeaders hd h.flow) (h.k.recvHeaders hd) (.recvHeaders s hd) (.recvHeaders hd) trivial rfl
 theorem SReach.recvData (id : Nat) (p : Bytes) (e : Bool) (pl : Option Nat) : SReach (s.recvData id p e pl).1 :=
-  h.step (.recvData id p e pl h.flow) (.recvData s id p e pl) (.recvData id p e pl) trivial rfl
+  h.step (.recvData id p e pl h.flow) (h.k.recvData id p e pl) (.recvData s id p e pl) (.recvData id p e pl) trivial rfl
 theorem SReach.recvReset (id : Nat) (r : Reason) : SReach (s.recvReset id r).1 :=
-  h.step (.recvReset id r h.flow) (.recvReset s id r) (.recvReset id r) trivial rfl
+  h.step (.recvReset id r h.flow) (h.k.recvReset id r) (.recvReset s id r) (.recvReset id r) trivial rfl
 theorem SReach.recvPushPromise (id : Nat) (hd : HeadersIn) : SReach (s.recvPushPromise id hd).1 :=
-  h.step (.recvPushPromise id hd h.flow) (.recvPushPromise s id hd) (.recvPushPromise id hd) trivial rfl
+  h.step (.recvPushPromise id hd h.flow) (h.k.recvPushPromise id hd) (.recvPushPromise s id hd) (.recvPushPromise id hd) trivial rfl
 theorem SReach.recvGoAwayFrame (l : Nat) (r : Reason) (d : Bytes) : SReach (s.recvGoAwayFrame l r d).1 :=
-  h.step (.recvGoAwayFrame l r d h.flow) (.recvGoAwayFrame s l r d) (.recvGoAwayFrame l r d) trivial rfl
+  h.step (.recvGoAwayFrame l r d h.flow) (h.k.recvGoAwayFrame l r d) (.recvGoAwayFrame s l r d) (.recvGoAwayFrame l r d) trivial rfl
 theorem SReach.recvWindowUpdate (id inc : Nat) (hi : inc ≤ 2147483647) : SReach (s.recvWindowUpdate id inc).1 :=
-  h.step (.recvWindowUpdate id inc hi h.flow) (.recvWindowUpdate s id inc) (.recvWindowUpdate id inc) trivial rfl
+  h.step (.recvWindowUpdate id inc hi h.flow) (h.k.recvWindowUpdate id inc hi) (.recvWindowUpdate s id inc) (.recvWindowUpdate id inc) trivial rfl
 theorem SReach.recvEof (b : Bool) : SReach (s.recvEof b) :=
-  h.step (.recvEof b h.flow) (.recvEof s b) (.recvEof b) trivial rfl
+  h.step (.recvEof b h.flow) (h.k.recvEof b) (.recvEof s b) (.recvEof b) trivial rfl
 theorem SReach.handleError (e : PErr) : SReach (s.handleError e).1 :=
-  h.step (.handleError e h.flow) (.handleError s e) (.handleError e) trivial rfl
+  h.step (.handleError e h.flow) (h.k.handleError e) (.handleError s e) (.handleError e) trivial rfl
 theorem SReach.innerSendReset (id : Nat) (r : Reason) : SReach (s.innerSendReset id r).1 :=
-  h.step (.innerSendReset id r h.flow) (.innerSendReset s id r) (.innerSendReset id r) trivial rfl
+  h.step (.innerSendReset id r h.flow) (h.k.innerSendReset id r) (.innerSendReset s id r) (.innerSendReset id r) trivial rfl
 theorem SReach.recvGoAway (l : Nat) : SReach (s.recvGoAway l) :=
-  h.step (.recvGoAway l h.flow) (.recvGoAway s l) (.recvGoAway l) trivial rfl
+  h.step (.recvGoAway l h.flow) (h.k.recvGoAway l) (.recvGoAway s l) (.recvGoAway l) trivial rfl
 theorem SReach.applyRemoteSettings (v : List (Nat × Nat)) (b : Bool) (hv : SettingsOk v) : SReach (s.applyRemoteSettings v b).1 :=
-  h.step (.applyRemoteSettings v b hv h.flow) (.applyRemoteSettings s v b) (.applyRemoteSettings v b) trivial rfl
+  h.step (.applyRemoteSettings v b hv h.flow) (h.k.applyRemoteSettings v b hv) (.applyRemoteSettings s v b) (.applyRemoteSettings v b) trivial rfl
 theorem SReach.applyLocalSettingsFrame (v : List (Nat × Nat)) (hv : ∀ t, ConnRecvP.settingsIws v = some t → t ≤ 2147483647) :
     SReach (s.applyLocalSettingsFrame v).1 :=
-  h.step (.applyLocalSettingsFrame v h.flow) (.applyLocalSettingsFrame s v) (.applyLocalSettings v) hv rfl
+  h.step (.applyLocalSettingsFrame v h.flow) (h.k.applyLocalSettingsFrame v) (.applyLocalSettingsFrame s v) (.applyLocalSettings v) hv rfl
 theorem SReach.setTargetConnectionWindow (t : Nat) (ht : t ≤ 2147483647) : SReach (s.setTargetConnectionWindow t).1 :=
-  h.step (.setTargetConnectionWindow t h.flow) (.setTargetConnectionWindow s t) (.setTargetConnectionWindow t) ht rfl
+  h.step (.setTargetConnectionWindow t h.flow) (h.k.setTargetConnectionWindow t) (.setTargetConnectionWindow s t) (.setTargetConnectionWindow t) ht rfl
 theorem SReach.clearExpiredResetStreams (n : Nat) : SReach (Streams.clearExpiredResetStreams n s) :=
-  h.step (.clearExpiredResetStreams n h.flow) (.clearExpiredResetStreams n s) (.clearExpiredResetStreams n) trivial rfl
+  h.step (.clearExpiredResetStreams n h.flow) (KInv.clearExpiredResetStreams n h.k) (.clearExpiredResetStreams n s) (.clearExpiredResetStreams n) trivial rfl
 theorem SReach.pollComplete (n : Nat) (w : Writer) (io : Tio) (t : String) : SReach (Streams.pollComplete n s w io t).1 :=
-  h.step (.pollComplete n w io t h.flow) (.pollComplete n s w io t) (.pollComplete n w io t) trivial rfl
+  h.step (.pollComplete n w io t h.flow) (KInv.pollComplete n h.k w io t) (.pollComplete n s w io t) (.pollComplete n w io t) trivial rfl
 theorem SReach.pollSendPendingRefusal (n : Nat) (w : Writer) (io : Tio) (t : String) :
     SReach (Streams.pollSendPendingRefusal n s w io t).1 :=
-  h.step (.pollSendPendingRefusal n w io t h.flow) (.pollSendPendingRefusal n s w io t) (.pollSendPendingRefusal n w io t) trivial rfl
+  h.step (.pollSendPendingRefusal n w io t h.flow) (KInv.pollSendPendingRefusal n h.k w io t) (.pollSendPendingRefusal n s w io t) (.pollSendPendingRefusal n w io t) trivial rfl
 theorem SReach.wake (t : List String) : SReach (s.wake t) :=
-  h.step (.wake t h.flow) (.wake s t) (.wake t) trivial rfl
+  h.step (.wake t h.flow) (h.k.wake t) (.wake s t) (.wake t) trivial rfl
 theorem SReach.panic (m : String) : SReach (s.panic m) :=
-  h.step (.panic m h.flow) (.panic s m) (.panic m) trivial rfl
+  h.step (.panic m h.flow) (h.k.panic m) (.panic s m) (.panic m) trivial rfl
 
 end
 
